@@ -78,7 +78,7 @@ for i in ids:
 na=[{"property_id":i,"reason":"no check registered"} for i in ids if i not in C]
 hooks=subprocess.run(['git','-C','/repo','log','--format=%h','--grep=^verif-hook:'],capture_output=True,text=True).stdout.split()
 m={"version":1,
- "setup_cmd":"cd /verif/harness && export GOFLAGS=-mod=mod GOPROXY=off GOSUMDB=off GOTOOLCHAIN=local && go build -tags verif -o /dev/null ./cmd/check && go build -race -tags verif -o /dev/null ./cmd/check",
+ "setup_cmd":"cd /verif/harness && export GOFLAGS=-mod=mod GOPROXY=off GOSUMDB=off GOTOOLCHAIN=local && CGO_ENABLED=0 go build -tags verif -o /dev/null ./cmd/check && go build -race -tags verif -o /dev/null ./cmd/check",
  "hooks":{"guard":"verif","enable":"go build -tags verif (run.sh builds the harness, and through its module replace the repository, with -tags verif)",
    "baseline_off_cmd":"cd /repo && GOFLAGS=-mod=mod GOPROXY=off GOSUMDB=off GOTOOLCHAIN=local go test -vet=off -count=1 ./...",
    "source_commits":hooks,"add_only":True},
